@@ -72,9 +72,10 @@ def validate(out, tracefile, name, classify=None, timeout=3600, module="Trace_Id
 def negative_control(tracefile, name, mutators, max_events=4000):
     """Binding check: apply each mutator to a prefix of a real trace; TLC must reject the mutated scenario
     (and must accept the unmutated prefix apart from violations already present)."""
-    events = load(tracefile)[:max_events]
-    # cut at the last Reset so that the prefix consists of whole scenarios
-    k = max(i for i, e in enumerate(events) if e["ev"] == "Reset")
+    events = load(tracefile)
+    # a prefix of whole scenarios with at least max_events/2 events
+    resets = [i for i, e in enumerate(events) if e["ev"] == "Reset"] + [len(events)]
+    k = next((i for i in resets if i >= max_events // 2), resets[-1])
     events = events[:k]
     base = os.path.join(os.path.dirname(tracefile), "neg-base.ndjson")
     C.write_ndjson(base, events)
